@@ -3,7 +3,7 @@
 `pl' is indexed by set numbers, `toks' (and every array allocated with toks_len elements) by
 token numbers.  The translation pass may derive a token number from a set number only if the two
 advance together, i.e. if every set appended to the parser list is the result of shifting a token."""
-from ..model import resolve_addr, strip_casts, const_int, loaded_from
+from ..model import resolve_addr, strip_casts, strip_int_casts, const_int, loaded_from
 from ..core import AnalysisBroken
 from .. import expr
 
@@ -372,6 +372,14 @@ def rule_parallel_arrays(ctx, rep, config="c-lib"):
     rep.floor("R16-parallel", "stores of sets into the parser list", n, 7)
 
 
+def _is_term_test(f, o):
+    x = f.inst(strip_int_casts(f, o))
+    if x is None or x.op != "icmp" or x.d["pred"] != "ne":
+        return False
+    a, b = loaded_from(f, x.ops[0]), loaded_from(f, x.ops[1])
+    return set([(a.last_field() if a is not None else None), (b.last_field() if b is not None else None)]) == set(["set_core.term", "grammar.term_error"])
+
+
 def rule_back_cost(ctx, rep, config="c-lib"):
     rep.rule("R16-back", "find_error_pl_set counts one token for every set it walks back over except the sets made by a shift of `error' (they consumed no token): the "
                          "increment of *cost is controlled by  core->term != term_error")
@@ -380,11 +388,41 @@ def rule_back_cost(ctx, rep, config="c-lib"):
     f = p.fn("find_error_pl_set")
     rep.cover(p, [f.name])
     incs = []
-    for s_ in f.all_insts():
-        if s_.op == "store" and resolve_addr(f, s_.ops[1]).root == ("a", 1):
-            v = expr.lin(f, s_.ops[0], 0, 1)
-            if v.c == 1 and len(v.t) == 1:
-                incs.append(s_)
+    stores = [s_ for s_ in f.all_insts() if s_.op == "store" and resolve_addr(f, s_.ops[1]).root == ("a", 1)]
+    if not stores:
+        raise AnalysisBroken("R16-back: find_error_pl_set does not store the cost")
+    # the increments: +1 on the cost kept in memory, or +1 on a local counter (a phi) that flows into the stored value
+    seen = set()
+    arith_ok = False
+    work = [s_.ops[0] for s_ in stores]
+    while work:
+        o = work.pop()
+        x = f.inst(strip_int_casts(f, o))
+        if x is None or x.id in seen:
+            continue
+        seen.add(x.id)
+        if x.op == "phi":
+            work.extend(v for (v, _) in x.d["incoming"])
+        elif x.op == "add" and (const_int(x.ops[0]) == 1 or const_int(x.ops[1]) == 1):
+            other = x.ops[1] if const_int(x.ops[0]) == 1 else x.ops[0]
+            oi = f.inst(strip_int_casts(f, other))
+            if oi is not None and (oi.op == "phi" or (oi.op == "load" and resolve_addr(f, oi.ops[0]).root == ("a", 1))):
+                incs.append(x)
+                work.append(other)
+        elif x.op == "add" and any(_is_term_test(f, o_) for o_ in x.ops):
+            arith_ok = True      # cost += (core->term != term_error)
+        elif x.op in ("add", "sub", "select"):
+            work.extend(x.ops[-2:])
+    if arith_ok and not incs:
+        rep.ok("R16-back", "find_error_pl_set/error-sets-not-counted", sample={"form": "cost += (core->term != term_error)"})
+        rep.floor("R16-back", "stores of the backward cost", len(stores), 1)
+        return
+    if not incs:
+        rep.violation("R16-back", "find_error_pl_set/error-sets-not-counted", "the backward cost is not counted set by set (no increment of the cost found): a closed form "
+                      "over the positions also counts the sets made by shifting `error' in an earlier recovery, which consumed no token", where=stores[-1].where(),
+                      witness=[x.where() for x in stores])
+        rep.floor("R16-back", "stores of the backward cost", len(stores), 1)
+        return
     if len(incs) != 1:
         raise AnalysisBroken("R16-back: %d increments of the cost in find_error_pl_set" % len(incs))
     s_ = incs[0]
